@@ -660,11 +660,11 @@ theorem operRegRec_noEmpty [RealOps α] (m : Mode) (D : Dims) (T : Tables α) (s
   all_goals first
     | (cases h; done)
     | (cases h; exact hs)
-    | (have hra := regionArr_noEmpty (by assumption) (getD_noEmpty _ _ _ _ _ hs)
+    | (have hra := regionArr_noEmpty (by assumption) (getD_noEmpty _ _ _ _ _ (getD_noEmpty _ _ _ _ _ hs))
        first
          | (cases h; exact hra)
          | (refine map_inv NoEmpty _ _ q h (fun y hy => ?_)
-            exact noEmpty_putD _ _ _ (getD_noEmpty _ _ _ _ _ hra)
+            exact noEmpty_putD _ _ _ hra
               (regApply_arrOK _ _ _ (operateKernel_statusOK _ _) _ _ _ _ _ (getD_arrOK _ _ _ _ _ hs) hy)))
 
 /-- an invariant of every step is an invariant of the fold -/
@@ -1316,10 +1316,10 @@ theorem operRegRec_mono [RealOps α] (D : Dims) (T : Tables α) (s : St α)
     | (have hra := regionArr_mono (by assumption)
        have hrs := fun k t => @regionArr_sget _ _ _ _ _ _ _ _ (by assumption) k t
        first
-         | (cases h; exact (getD_mono _ _ _ _ _).trans hra)
+         | (cases h; exact ((getD_mono _ _ _ _ _).trans (getD_mono _ _ _ _ _)).trans hra)
          | (refine map_inv (StMono s) _ _ q h (fun y hy => ?_)
-            exact (((getD_mono _ _ _ _ _).trans hra).trans (getD_mono _ _ _ _ _)).trans
-              (putD_mono _ _ _ _ (getD_sget_pres _ _ _ _ _ _ _ (hrs _ _ (getD_sget_self _ _ _ _ _)))
+            exact (((getD_mono _ _ _ _ _).trans (getD_mono _ _ _ _ _)).trans hra).trans
+              (putD_mono _ _ _ _ (hrs _ _ (getD_sget_pres _ _ _ _ _ _ _ (getD_sget_self _ _ _ _ _)))
                 (regApply_ref_statusStep _ (operateKernel_statusOK _ _) _ _ _ _ _ _ hy))))
 
 /-- a reflexive-transitive relation that every step respects is respected by the fold -/
